@@ -15,6 +15,9 @@ import multiprocessing as mp
 
 HERE = os.path.dirname(os.path.dirname(os.path.abspath(__file__)))
 sys.path.insert(0, HERE)
+# where evidence/ and out/ are written: /verif itself, except for trial runs against scratch trees (seeded changes,
+# mutation self-test), which must not overwrite the evidence of the unchanged tree
+OUTROOT = os.environ.get('VERIF_OUTROOT') or HERE
 
 from pyvc.contract import REGISTRY            # noqa: E402
 from pyvc import harness as Hn                # noqa: E402
@@ -112,7 +115,7 @@ def cvc5_unsat(smt2, timeout_s):
     import subprocess
     import tempfile
     try:
-        with tempfile.NamedTemporaryFile('w', suffix='.smt2', dir=os.path.join(HERE, 'out'), delete=False) as f:
+        with tempfile.NamedTemporaryFile('w', suffix='.smt2', dir=os.path.join(OUTROOT, 'out'), delete=False) as f:
             f.write(smt2)
             p = f.name
         r = subprocess.run(['/usr/bin/cvc5', '--tlimit=%d' % (timeout_s * 1000), p], capture_output=True, text=True,
@@ -151,8 +154,8 @@ def match_known(known, prop, label, detail=''):
 
 def run_property(prop, tier, seed, only=None):
     t0 = time.time()
-    os.makedirs(os.path.join(HERE, 'out', 'replay', prop), exist_ok=True)
-    os.makedirs(os.path.join(HERE, 'evidence'), exist_ok=True)
+    os.makedirs(os.path.join(OUTROOT, 'out', 'replay', prop), exist_ok=True)
+    os.makedirs(os.path.join(OUTROOT, 'evidence'), exist_ok=True)
     load_contracts()
     known = load_known()
     cs = [c for c in REGISTRY if prop in c.props and (only is None or only in c.id)]
@@ -302,7 +305,7 @@ def run_property(prop, tier, seed, only=None):
             continue
         seen.add(key)
         nrep += 1
-        path = os.path.join(HERE, 'out', 'replay', prop, '%03d.json' % nrep)
+        path = os.path.join(OUTROOT, 'out', 'replay', prop, '%03d.json' % nrep)
         reproduced = any(rp.get('reproduced') for rp in v['replays'])
         with open(path, 'w') as f:
             json.dump({'property': prop, 'obligation': v['obligation'], 'anchor': v['anchor'], 'kind': v['kind'],
@@ -371,7 +374,7 @@ def run_property(prop, tier, seed, only=None):
           'violations': len(seen)}
     if crashed:
         ev['coverage']['checker_errors'] = [c.get('crash', '')[-1500:] for c in crashed]
-    with open(os.path.join(HERE, 'evidence', '%s.json' % prop), 'w') as f:
+    with open(os.path.join(OUTROOT, 'evidence', '%s.json' % prop), 'w') as f:
         json.dump(ev, f, indent=1, default=str)
     for l in lines:
         print(l)
